@@ -42,6 +42,11 @@ fi
 export CONSIM_SITES="$S/sites.json" CONSIM_BIN_PLAIN="$S/consim" CONSIM_BIN_RACE="$S/consim-race"
 export VERIF_TREE_HASH="$(cd "$REPO" && find . -name '*.go' -not -path './.git/*' -not -name '*_test.go' -print0 | sort -z | xargs -0 sha256sum | sha256sum | cut -c1-16)"
 export TMPDIR="$S"
+if [ "$mode" = "exec" ]; then
+	shift
+	"$@"
+	exit $?
+fi
 if [ "$mode" = "replay" ]; then
 	"$S/consim" replay "${2:?replay file}"
 	exit $?
